@@ -92,7 +92,7 @@ CLAIMED = {
               "tori and tilted cones are decided by correspondence and the Lean spec monitor, not by theorems."),
         design_ref='§8 C04'),
     'C05': dict(
-        technique='Lean 4 proof (fuel induction over the universe hierarchy; counting argument over partitions) + model↔code correspondence of the cells pot_fill creates + Lean point monitor through the hierarchy',
+        technique='Lean 4 proof (fuel induction over the universe hierarchy; counting argument over partitions; frame choice) + model↔code correspondence of the cells pot_fill creates and the transformations they went through + Lean point monitor through the hierarchy',
         text=("Proved in Lean for any hierarchy depth, fan-out and reuse of universes, any per-cell regions and any "
               "frame maps (FILL transformation or TRCL) at each level: a cell generated by pot_fill contains a point iff "
               "the point lies in the container and, seen through the container's frame map, in the filler leaf "
@@ -103,8 +103,13 @@ CLAIMED = {
               "material, density) is compared with the code's final cell dictionary; the Lean reference semantics "
               "(MCNP.locate: universe frames, FILL transformation vs TRCL precedence, starred forms) is evaluated at "
               "sample points against owners, provenance comment and composition of the written file under random "
-              "option sets. Not proved: that the frame map the code applies is the FILL transformation when present "
-              "and the TRCL otherwise, and cell_transform/pot_transform on trees (monitor + C04 theorems per surface)."),
+              "option sets. Which frame: the model records for every generated cell the transformations its filler went "
+              "through — per container on its path, innermost first, the FILL transformation when there is one (the TRCL "
+              "is then disregarded) and otherwise the container's TRCLs in order (frame_choice, "
+              "fill_transformation_overrides_trcl, trcl_places_the_universe); undoing them last-first is walking the "
+              "point through the containers from the outside in (moves_transport). The fillmodel stream recovers the "
+              "same list from the cell_transform calls pot_fill really made and compares. How one transformation moves "
+              "a filler tree is C04 transformed_tree / transformed_cell."),
         design_ref='§8 C05'),
     'C06': dict(
         technique='Lean 4 proof (induction over the index ranges; field identities for the dual basis) + model↔code correspondence + Lean point monitor on lattice decks',
@@ -120,7 +125,7 @@ CLAIMED = {
               "written file. Not proved: the clipping of elements by the container (C05 theorem not restated for lattices)."),
         design_ref='§8 C06'),
     'C09': dict(
-        technique='Lean 4 proof (char-level model of normalize_float) + model↔code correspondence on generated spellings + respelling oracle',
+        technique='Lean 4 proof (char-level model of normalize_float; model of constructGeomCompT4) + model↔code correspondence on generated spellings and on the GEOMCOMP dictionaries of real conversions + respelling oracle + Lean point monitor (owner)',
         text=("Proved in Lean on the char-level model of normalize_float: any number of trailing zeros after the decimal "
               "point is immaterial to the key (trailing_zeros_immaterial), the exponent markers e/E/d/D and the "
               "marker-less Fortran form are normalised to one spelling (markers_normalised); the model is compared with "
@@ -131,7 +136,14 @@ CLAIMED = {
               "densities never share a composition. For literals with an exponent part (marker e/E/d/D or a bare signed "
               "exponent, with or without point) the key is the literal with the marker written as e, everything else "
               "kept (normalizeFloat_exp); both spellings are read to the same mantissa and power of ten "
-              "(exp_key_keeps_value) and all marker spellings share one key (exp_markers_share_key)."),
+              "(exp_key_keeps_value) and all marker spellings share one key (exp_markers_share_key). Attachment: on the "
+              "model of constructGeomCompT4 (compared with the code on every GEOMCOMP dictionary of real conversions — "
+              "names, order, declared counts, volume lists — and with the written block) every non-fictive volume is "
+              "filed under the composition named after material and density of its owner, the first cell of its "
+              "provenance list, i.e. the filler at the bottom of the FILL chain (geomcomp_attachment, attached_to_owner, "
+              "leaf_material_is_filler); nothing else and no fictive volume is filed (attached_only_to_owner); a volume "
+              "has one composition (one_composition_per_volume); the name determines material and density, void cells "
+              "getting the bare material name (composition_name_determines_cell)."),
         design_ref='§8 C09'),
     'C10': dict(
         technique='Lean 4 proof (field identities for rescale_fractions, decision logic of the material card reader) + Lean composition monitor on the written file',
